@@ -1011,6 +1011,20 @@ impl<'a> G<'a> {
             w.lexeme("version", self.r.pick_str(&["OPENQASM 3.0", "OPENQASM 3", "OPENQASM 3.1"]));
             w.push(";\n");
         }
+        if !is_main && !self.cycle && self.r.chance(1, 14) {
+            // a degenerate included file: empty, blank, or comments only
+            let t = self.r.pick_str(&["", "\n", "   ", "// nothing here\n", "// no newline at the end"]);
+            w.push(t);
+            if self.sw.comments && self.r.chance(1, 2) {
+                if !w.s.is_empty() && !w.s.ends_with('\n') {
+                    w.push("\n");
+                }
+                w.lexeme("block_comment", "/* only a comment */");
+            }
+            self.files[file_ix].meta = meta;
+            self.files[file_ix].body = Some(w);
+            return;
+        }
         let mut n_stmts = if is_main { 2 + self.r.below(10) } else { 1 + self.r.below(7) };
         if self.sw.big {
             n_stmts *= 3;
@@ -1338,6 +1352,9 @@ pub fn gen_pristine(r: &mut Rng, profile: Profile, root: &str, cycle: bool) -> G
 
     // ---- materialise
     let mut lexemes: BTreeMap<String, (Vec<Lexeme>, Vec<(usize, usize)>)> = BTreeMap::new();
+    // some files carry no marker declaration (so that empty / comment-only / include-only files
+    // exist as such)
+    let bare_files: Vec<bool> = (0..nfiles).map(|_| r.chance(1, 8)).collect();
     for (i, f) in files.iter().take(nfiles).enumerate() {
         let body = f.body.as_ref().unwrap();
         for (copy, d) in placement[i].iter().enumerate() {
@@ -1348,7 +1365,10 @@ pub fn gen_pristine(r: &mut Rng, profile: Profile, root: &str, cycle: bool) -> G
             } else {
                 ""
             };
-            let marker = if header.is_empty() {
+            let bare = bare_files[i];
+            let marker = if bare {
+                header.to_string()
+            } else if header.is_empty() {
                 marker_line(i, copy)
             } else {
                 format!("{}\n{}", header, marker_line(i, copy))
@@ -1368,7 +1388,9 @@ pub fn gen_pristine(r: &mut Rng, profile: Profile, root: &str, cycle: bool) -> G
                 *x += off;
             }
             meta.stmt_starts.insert(0, 0);
-            meta.graph_stmts += 1;
+            if !bare {
+                meta.graph_stmts += 1;
+            }
             world.meta.insert(path.clone(), meta);
             let mut lx: Vec<Lexeme> = body
                 .lexemes
@@ -1488,7 +1510,7 @@ fn static_damage(r: &mut Rng, g: &mut Generated, profile: Profile) -> Option<&'s
         Profile::Gating => 12,
         Profile::Spans => 9,
     };
-    let kinds: [(&'static str, u32); 10] = [
+    let kinds: [(&'static str, u32); 11] = [
         ("torn", content_weight),
         ("torn_lexeme", content_weight),
         ("zero_tail", content_weight / 2),
@@ -1499,6 +1521,7 @@ fn static_damage(r: &mut Rng, g: &mut Generated, profile: Profile) -> Option<&'s
         ("notdir", if is_main { 0 } else { 1 }),
         ("perm", if is_main { 0 } else { 3 }),
         ("eio", if is_main { 0 } else { 3 }),
+        ("garbage", content_weight / 2),
     ];
     let k = kinds[r.weighted(&kinds.iter().map(|k| k.1).collect::<Vec<_>>())].0;
     let (mut lex, mut exp_tears) = g.lexemes.get(&path).cloned().unwrap_or_default();
@@ -1510,14 +1533,31 @@ fn static_damage(r: &mut Rng, g: &mut Generated, profile: Profile) -> Option<&'s
         lex.clear();
         exp_tears.clear();
     }
+    // Sanity filter for the generator's own lexeme records: a record is only used if the
+    // pristine text really has exactly one token spanning that range (a lexeme written inside a
+    // line comment, annotation or pragma, say, is not a lexeme). This can only make G3 check
+    // less, never more.
+    let token_spans: std::collections::BTreeSet<(usize, usize)> = match std::str::from_utf8(&bytes) {
+        Ok(t) => {
+            let mut v = std::collections::BTreeSet::new();
+            let mut pos = 0usize;
+            for tok in oq3_lexer::tokenize(t) {
+                v.insert((pos, pos + tok.len as usize));
+                pos += tok.len as usize;
+            }
+            v
+        }
+        Err(_) => Default::default(),
+    };
+    let confirmed = |l: &Lexeme| token_spans.contains(&(l.start, l.end));
     let g3_for = |p: usize| -> Option<(String, usize)> {
         for l in &lex {
-            if l.tear_is_diagnosable(p) {
+            if l.tear_is_diagnosable(p) && confirmed(l) {
                 return Some((l.class.to_string(), l.start));
             }
         }
         for (tp, ix) in &exp_tears {
-            if *tp == p {
+            if *tp == p && confirmed(&lex[*ix]) {
                 return Some((lex[*ix].class.to_string(), lex[*ix].start));
             }
         }
@@ -1558,6 +1598,34 @@ fn static_damage(r: &mut Rng, g: &mut Generated, profile: Profile) -> Option<&'s
             let g3 = if std::str::from_utf8(&bytes[..cut]).is_ok() { g3_for(cut) } else { None };
             w.damage.push(Damage { path, kind: "torn".into(), at: cut, g3 });
             Some("torn")
+        }
+        "garbage" => {
+            // a few bytes of garbage written at a statement boundary: malformed lexemes of the
+            // classes C11 names (some with multi-byte characters), possibly several
+            let text = String::from_utf8(bytes.clone()).ok()?;
+            let starts: Vec<usize> = w.meta.get(&path).map(|m| m.stmt_starts.clone()).unwrap_or_default();
+            let mut t = text.clone();
+            let n = 1 + r.below(2);
+            let mut first_at = 0;
+            for k in 0..n {
+                let at = if starts.is_empty() { t.len() } else { *r.pick(&starts) };
+                let at = at.min(t.len());
+                if !t.is_char_boundary(at) {
+                    continue;
+                }
+                let junk = r.pick_str(&[" 0x ", " 1e ", " x🙂y ", " \"open ", " $🙂 ", " #foo ", " é€§ ", " 0b; ", " 2.5e+ ", " /* open "]);
+                t.insert_str(at, junk);
+                if k == 0 {
+                    first_at = at;
+                }
+            }
+            if t == text {
+                return None;
+            }
+            w.nodes.insert(path.clone(), Node::File(t.into_bytes()));
+            w.meta.remove(&path);
+            w.damage.push(Damage { path, kind: "garbage".into(), at: first_at, g3: None });
+            Some("garbage")
         }
         "zero_tail" => {
             if bytes.is_empty() {
